@@ -56,7 +56,8 @@ def design_size(D, noisy, fes=None):
 
 def chance(draw, p):
     """Bernoulli(p) with an unbiased finite sampler (st.floats is heavily biased towards 0)."""
-    return draw(st.sampled_from(range(50))) < round(p * 50)
+    # hashed so that Hypothesis's preference for boundary values (0, max) does not skew the probability
+    return ((draw(st.integers(0, 65535)) * 40503 + 389) % 1000) < round(p * 1000)
 
 
 _mant = st.sampled_from([1.0, 2.0, 5.0])
